@@ -122,6 +122,44 @@ def process (h : Hdr) : Verdict :=
   if !src.isEmpty && containsSpParen src && src.getLast? ≠ some ')' then .fail else
   .pkg name ver
 
+/-- `strings.Index(s, " (")` (-1 when absent) -/
+def indexSpParen : List Char → Int
+  | [] => -1
+  | c :: t =>
+    if c = ' ' && t.head? = some '(' then 0
+    else let i := indexSpParen t; if i < 0 then -1 else i + 1
+
+/-- `parseSourceNameVersion` as written: `source[:idx]` and `source[idx+2 : len(source)-1]`.
+Outer `none` = slice bounds out of range (panic); inner `none` = the function's error return. -/
+def sourceNVGo (src : List Char) : Option (Option (List Char × List Char)) :=
+  if src.isEmpty then some (some ([], [])) else
+  let idx := indexSpParen src
+  if idx ≠ -1 then
+    (if src.getLast? ≠ some ')' then some none
+     else match goSliceI src 0 idx, goSliceI src (idx + 2) ((src.length : Int) - 1) with
+       | some n, some v => some (some (n, v))
+       | _, _ => none)
+  else some (some (src, []))
+
+/-- the body of the record loop as written, with `parts[2]` as a Go index and the `Source` slices;
+`none` = run-time panic -/
+def processGo (h : Hdr) : Option Verdict :=
+  let status := get h "Status".toList
+  if status.isEmpty then some .skip else
+  let parts := splitSp status []
+  if parts.length ≠ 3 then some .fail else
+  match goIndex parts 2 with
+  | none => none
+  | some st =>
+    if st ≠ "installed".toList then some .skip else
+    let name := get h "Package".toList
+    let ver := get h "Version".toList
+    if name.isEmpty || ver.isEmpty then some .skip else
+    match sourceNVGo (get h "Source".toList) with
+    | none => none
+    | some none => some .fail
+    | some (some _) => some (.pkg name ver)
+
 /-- `Peek(1)` at the start of `ReadMIMEHeader`: does the next line start with a space or tab -/
 def headSpTab : List Line → Bool
   | l :: _ => startsSpTab l
@@ -141,10 +179,23 @@ def loop : Nat → List Line → List (List Char × List Char) → Option (List 
       | .skip => if eof then some acc else loop fuel rest acc
       | .pkg n v => if eof then some (acc ++ [(n, v)]) else loop fuel rest (acc ++ [(n, v)])
 
+/-- the record loop with the Go-shaped body (`loop` below is its index-free reformulation, `loopGo_eq`) -/
+def loopGo : Nat → List Line → List (List Char × List Char) → Outcome (List (List Char × List Char))
+  | 0, _, acc => .ok acc
+  | fuel + 1, ls, acc =>
+    if headSpTab ls then .err else
+    match stanza ls [] none with
+    | none => .err
+    | some (h, eof, rest) =>
+      if h.isEmpty then (if eof then .ok acc else loopGo fuel rest acc) else
+      match processGo h with
+      | none => .panic
+      | some .fail => .err
+      | some .skip => if eof then .ok acc else loopGo fuel rest acc
+      | some (.pkg n v) => if eof then .ok (acc ++ [(n, v)]) else loopGo fuel rest (acc ++ [(n, v)])
+
 def parse (bytes : List Char) : Outcome (List (List Char × List Char)) :=
   let ls := rlines bytes
-  match loop (ls.length + 2) ls [] with
-  | none => .err
-  | some ps => .ok ps
+  loopGo (ls.length + 2) ls []
 
 end Scalibr.Parsers.Dpkg
